@@ -25,28 +25,8 @@ func c19AllOfNoneOf(r *core.Report) {
 	}
 	info := f.Pkg.TypesInfo
 	// the parsed lists, by the request field they come from
-	lists := map[string]types.Object{}
-	ast.Inspect(f.Body, func(m ast.Node) bool {
-		as, ok := m.(*ast.AssignStmt)
-		if !ok || len(as.Rhs) != 1 || len(as.Lhs) < 1 {
-			return true
-		}
-		c, ok := core.Unparen(as.Rhs[0]).(*ast.CallExpr)
-		if !ok || len(c.Args) != 1 {
-			return true
-		}
-		sel, ok := core.Unparen(c.Args[0]).(*ast.SelectorExpr)
-		if !ok {
-			return true
-		}
-		switch sel.Sel.Name {
-		case "AccountExclude", "AccountRequired":
-			if o := core.ObjOf(info, as.Lhs[0]); o != nil {
-				lists[sel.Sel.Name] = o
-			}
-		}
-		return true
-	})
+	lists := c19FilterLists(p, f)
+	delete(lists, "AccountInclude")
 	// the predicate: the literal with a solana.Transaction parameter that returns bool
 	var pred *core.Func
 	for _, l := range allLits(f) {
@@ -136,6 +116,93 @@ func c19AllOfNoneOf(r *core.Report) {
 			}
 			return true
 		})
+		// shape (a'): the presence of the listed key is obtained from HasAccount directly or through a wrapper that hands
+		// HasAccount's answer on; with that answer fixed to the outcome that must reject, every way on from the lookup -
+		// whatever the other sub-conditions (lookup failed ...) are - ends in `return false` before the next key is looked at
+		if !good {
+			ast.Inspect(pred.Body, func(m ast.Node) bool {
+				rs, ok := m.(*ast.RangeStmt)
+				if !ok || core.ObjOf(info, rs.X) != lo || rs.Value == nil || good {
+					return true
+				}
+				kv := core.ObjOf(info, rs.Value)
+				ast.Inspect(rs.Body, func(k ast.Node) bool {
+					as, ok := k.(*ast.AssignStmt)
+					if !ok || len(as.Rhs) != 1 || good {
+						return true
+					}
+					c, ok := core.Unparen(as.Rhs[0]).(*ast.CallExpr)
+					if !ok {
+						return true
+					}
+					passesKey := false
+					for _, a := range c.Args {
+						if core.ObjOf(info, a) == kv {
+							passesKey = true
+						}
+					}
+					pi := -1
+					if passesKey && strings.HasSuffix(core.CalleeName(info, c), ".HasAccount") {
+						pi = 0
+					} else if passesKey {
+						pi = presenceResultOf(p, pred, c)
+					}
+					if pi < 0 || pi >= len(as.Lhs) {
+						return true
+					}
+					pv := core.ObjOf(info, as.Lhs[pi])
+					def := g.NodeOf(as.Pos())
+					if pv == nil || def == nil {
+						return true
+					}
+					env := &atomEnv{fn: pred, named: func(x ast.Expr) (string, bool, bool) {
+						if id, isId := core.Unparen(x).(*ast.Ident); isId && info.Uses[id] == pv {
+							return "P", false, true
+						}
+						return "", false, false
+					}}
+					val := map[string]bool{"P": want}
+					head := g.LoopHead(rs)
+					seen := map[*core.GNode]bool{}
+					queue := append([]*core.GNode{}, def.Succs...)
+					escapes := false
+					for len(queue) > 0 && !escapes {
+						x := queue[0]
+						queue = queue[1:]
+						if seen[x] {
+							continue
+						}
+						seen[x] = true
+						if x == head || x == g.Exit || (x.Ast != nil && (x.Ast.Pos() < rs.Body.Pos() || x.Ast.End() > rs.Body.End())) {
+							escapes = true
+							break
+						}
+						if rt, isRet := x.Ast.(*ast.ReturnStmt); isRet && x.Kind == core.KStmt {
+							if b, isC := boolConst(info, rt.Results[0]); len(rt.Results) == 1 && isC && !b {
+								continue
+							}
+							escapes = true
+							break
+						}
+						if x.Kind == core.KEdge && x.Ast != nil && x.Tag == nil {
+							if ce, isExpr := x.Ast.(ast.Expr); isExpr {
+								if v, okv := env.eval(ce, val, 0); okv && v != x.Truth {
+									continue
+								}
+							}
+						}
+						queue = append(queue, x.Succs...)
+					}
+					if !escapes {
+						good = true
+					} else {
+						why = "the per-key test of " + field + " does not reject on the right outcome of HasAccount"
+					}
+					return true
+				})
+				return true
+			})
+		}
 		// shape (b)
 		if !good {
 			for so, l := range setOf {
@@ -268,4 +335,122 @@ func c19NoTypedNilError(r *core.Report) {
 	check(f)
 	r.OK(rule, f.Key+"#returns-examined", posP(r, f.Pos()), "returns of nilable concrete values through the interface result examined")
 	_ = n
+}
+
+// c19FilterLists: the locals of f that hold the parsed account lists, by request field: assigned from a call on
+// filter.<Field>, directly or as the i-th result of a helper of the package whose i-th returned local is assigned that way.
+func c19FilterLists(p *core.Prog, f *core.Func) map[string]types.Object {
+	info := f.Pkg.TypesInfo
+	out := map[string]types.Object{}
+	fieldOf := func(fn *core.Func, o types.Object) string {
+		found := ""
+		ast.Inspect(fn.Body, func(m ast.Node) bool {
+			if as, ok := m.(*ast.AssignStmt); ok && len(as.Rhs) == 1 && len(as.Lhs) >= 1 && core.ObjOf(fn.Pkg.TypesInfo, as.Lhs[0]) == o {
+				if c, ok := core.Unparen(as.Rhs[0]).(*ast.CallExpr); ok && len(c.Args) == 1 {
+					if sel, ok := core.Unparen(c.Args[0]).(*ast.SelectorExpr); ok {
+						switch sel.Sel.Name {
+						case "AccountInclude", "AccountExclude", "AccountRequired":
+							found = sel.Sel.Name
+						}
+					}
+				}
+			}
+			return found == ""
+		})
+		return found
+	}
+	ast.Inspect(f.Body, func(m ast.Node) bool {
+		as, ok := m.(*ast.AssignStmt)
+		if !ok || len(as.Rhs) != 1 {
+			return true
+		}
+		if o := core.ObjOf(info, as.Lhs[0]); o != nil {
+			if fld := fieldOf(f, o); fld != "" {
+				if _, dup := out[fld]; !dup {
+					out[fld] = o
+				}
+				return true
+			}
+		}
+		c, ok := core.Unparen(as.Rhs[0]).(*ast.CallExpr)
+		if !ok {
+			return true
+		}
+		fo := core.Callee(info, c)
+		if fo == nil {
+			return true
+		}
+		h := p.ByObj[fo.Origin()]
+		if h == nil || h.Body == nil || h.Pkg != f.Pkg {
+			return true
+		}
+		ast.Inspect(h.Body, func(k ast.Node) bool {
+			rs, ok := k.(*ast.ReturnStmt)
+			if !ok || len(rs.Results) != len(as.Lhs) {
+				return true
+			}
+			for i, res := range rs.Results {
+				if o := core.ObjOf(h.Pkg.TypesInfo, res); o != nil {
+					if fld := fieldOf(h, o); fld != "" {
+						if _, dup := out[fld]; !dup {
+							out[fld] = core.ObjOf(info, as.Lhs[i])
+						}
+					}
+				}
+			}
+			return true
+		})
+		return true
+	})
+	return out
+}
+
+// presenceResultOf: call runs a wrapper (a local closure or a function of the package) around HasAccount; the index of the
+// wrapper's result that carries HasAccount's answer on the path where the lookup succeeded, or -1.
+func presenceResultOf(p *core.Prog, in *core.Func, call *ast.CallExpr) int {
+	info := in.Pkg.TypesInfo
+	var targets []*core.Func
+	if fo := core.Callee(info, call); fo != nil {
+		if h := p.ByObj[fo.Origin()]; h != nil {
+			targets = append(targets, h)
+		}
+	} else if v, ok := core.ObjOf(info, call.Fun).(*types.Var); ok {
+		targets = p.FuncValuesOf(v, in)
+	}
+	for _, w := range targets {
+		if w.Body == nil {
+			continue
+		}
+		winfo := w.Pkg.TypesInfo
+		var okObj types.Object
+		ast.Inspect(w.Body, func(m ast.Node) bool {
+			if as, isAs := m.(*ast.AssignStmt); isAs && len(as.Rhs) == 1 && len(as.Lhs) == 2 {
+				if c, isCall := core.Unparen(as.Rhs[0]).(*ast.CallExpr); isCall && strings.HasSuffix(core.CalleeName(winfo, c), ".HasAccount") {
+					okObj = core.ObjOf(winfo, as.Lhs[0])
+				}
+			}
+			return true
+		})
+		if okObj == nil {
+			continue
+		}
+		idx := -1
+		ast.Inspect(w.Body, func(m ast.Node) bool {
+			if l, isLit := m.(*ast.FuncLit); isLit && l != w.Lit {
+				return false
+			}
+			if rs, isRet := m.(*ast.ReturnStmt); isRet {
+				for i, e := range rs.Results {
+					if core.ObjOf(winfo, e) == okObj {
+						idx = i
+					}
+				}
+			}
+			return true
+		})
+		if idx >= 0 {
+			return idx
+		}
+	}
+	return -1
 }
